@@ -36,9 +36,9 @@ func c14Lists() [][]string {
 
 func c14Counts(tier string) (random, exhaustive int) {
 	if tier == "thorough" {
-		return 40000, (1 + 40 + 40*40 + 40*40*40 + c14ExhaustivePerCase - 1) / c14ExhaustivePerCase
+		return 200000, (1 + 40 + 40*40 + 40*40*40 + c14ExhaustivePerCase - 1) / c14ExhaustivePerCase
 	}
-	return 2500, (40 + 40*40 + c14ExhaustivePerCase - 1) / c14ExhaustivePerCase
+	return 25000, (40 + 40*40 + c14ExhaustivePerCase - 1) / c14ExhaustivePerCase
 }
 
 func init() {
